@@ -499,6 +499,9 @@ class Builtins:
             return k(st, SV("none", T.NONE))
         if name == "hasattr":
             return k(st, SV(self.hasattr(args[0], unslit(args[1].t), node), T.BOOL))
+        if name == "open":
+            # the builtin open(): assumed contract ext:open (a stream on the named file of the ghost file system)
+            return self.external("open", list(args), kwargs, st, k, ctl, node)
         if name in ("int", "float") and isinstance(args[0], SV) and args[0].ty == T.STR:
             # int(text)/float(text): a value for a valid lexical form, ValueError otherwise.  The parsers are
             # uninterpreted (py_int/py_float with validity predicates); A3 relates them to str()/repr().
